@@ -127,6 +127,8 @@ class TokCfg:
         """terminal names -> (text, expected [(name, value)])"""
         pieces = []
         expected = []
+        if self.fillers == [""]:
+            dense = False         # nothing is skipped in this configuration: no separators at all
         for t in terms:
             lex = rng.choice(self.lexemes[t])
             expected.append((t, self.value_of(t, lex)))
@@ -135,6 +137,10 @@ class TokCfg:
             elif pieces:
                 pieces.append(" ")
             pieces.append(lex)
+            if self.fillers == [""] and t in ("SPACE", "COMMENT") and lex.endswith("\n"):
+                pass
+        if self.fillers == [""]:
+            return "".join(pieces), expected
         if not dense and rng.random() < 0.3:
             pieces.insert(0, rng.choice(self.fillers))
         if not dense and rng.random() < 0.3:
@@ -174,6 +180,15 @@ TOKCFGS = [
         [" ", " x ", "x", "\n", " xx\n x"],
         synonyms={'A': 'a', 'B': 'b', 'C': 'c'},
         skip_tokens={'SPACE', 'X'},
+    ),
+    TokCfg(
+        "nothing-skipped(empty skip_tokens)",
+        r"(?P<SPACE>~)|(?P<COMMENT>\#[^#\n]*\#)|(?P<A>a)|(?P<B>b)",
+        ['a', 'b', 'SPACE', 'COMMENT'],
+        {'a': ['a'], 'b': ['b'], 'SPACE': ['~'], 'COMMENT': ['#c#', '# x #']},
+        [""],
+        synonyms={'A': 'a', 'B': 'b'},
+        skip_tokens=set(),
     ),
 ]
 
